@@ -53,6 +53,7 @@ type histStats struct {
 	delVsPut        bool
 	nonNewest       bool
 	ts0             bool
+	tsFuture        bool
 	emptyVal        bool
 	deletes         int
 	delMetOlderLive bool
@@ -98,6 +99,7 @@ func runHistory(c HistCase, o *vcore.Obs) (*Fleet, *histStats, error) {
 				st.deletes++
 			}
 			st.ts0 = st.ts0 || (c.Native && op.TS == 0)
+			st.tsFuture = st.tsFuture || (c.Native && op.TS >= 4_000_000_000_000_000_000)
 			st.emptyVal = st.emptyVal || (op.Kind == "put" && len(op.Val) == 0)
 			if op.Held && c.Native {
 				continue // (not committed yet)
@@ -243,6 +245,7 @@ func classifyHist(c HistCase, st *histStats, o *vcore.Obs) bool {
 	}
 	o.ClassIf(st.tieConflict, "equal-timestamp-conflict")
 	o.ClassIf(st.ts0, "ts-0")
+	o.ClassIf(st.tsFuture, "timestamp-ahead-of-the-wall-clock")
 	o.ClassIf(st.delVsPut, "delete-vs-put-conflict")
 	o.ClassIf(st.emptyVal, "empty-value")
 	o.ClassIf(st.nonNewest, "merge-of-non-newest-blob")
@@ -310,11 +313,14 @@ func genHist(t *rapid.T, delHeavy bool, maxOps int) HistCase {
 				op.Key = rapid.IntRange(0, len(fleetKeys)-1).Draw(t, "anykey")
 			}
 			if c.Native {
-				switch rapid.IntRange(0, 5).Draw(t, "tsk") {
+				switch rapid.IntRange(0, 6).Draw(t, "tsk") {
 				case 0:
 					op.TS = 0
 				case 1, 2, 3:
 					op.TS = uint64(rapid.IntRange(1, 4).Draw(t, "ts"))
+				case 6:
+					// an application whose clock runs ahead of everybody else's (years 2096 / 2261): "for all timestamps"
+					op.TS = rapid.SampledFrom([]uint64{4_000_000_000_000_000_000, 9_200_000_000_000_000_000}).Draw(t, "tsfar") + uint64(rapid.IntRange(0, 3).Draw(t, "tsf"))
 				default:
 					op.TS = 1_700_000_000_000_000_000 + uint64(rapid.IntRange(0, 5).Draw(t, "tsr"))
 				}
